@@ -188,7 +188,7 @@ class Obl:
         self.unwind = unwind
         self.unwindset = unwindset or []
         self.flags = list(flags or [])
-        self.timeout = timeout
+        self.timeout = min(timeout, int(os.environ.get("VERIF_TIMEOUT_CAP", "100000")))
         self.mem_gb = mem_gb
         self.desc = desc
         self.funcs = funcs or []
